@@ -17,7 +17,7 @@ func init() {
 		Technique:   "constant evaluation of the hold limits (go/constant); guarded-sink reachability and value provenance (SSA) on HoldRefresh, holdDurationLeft, maxAllowedPostponement, HeldSnaps and the prune helpers; who-may-write of the \"snaps-hold\" state key and of the first-held time",
 		Explanation: "Structural necessary conditions for 'snap-initiated refresh holds are bounded': (R1) the limits are the documented constants: 48h for holding another snap, 95d-5d=90d overall; (R2) in HoldRefresh, for a holder other than the system, the hold is stored only across holdDurationLeft(...) > 0 and (no explicit duration | duration <= the allowed maximum), with the remaining time computed from the time the hold was first placed, the last refresh, maxAllowedPostponement(gating, held, 90d) and 90d; FirstHeld is written only when no hold of that pair exists yet; maxAllowedPostponement grants the long limit only when the very same instance holds itself; holdDurationLeft returns the smaller of the two remaining times; (R3) the stored HoldUntil is either the cut-off lastRefresh+90d or a value proven earlier than it; (R4) HeldSnaps reports a hold only if it has not run out, is at the requested level, and - unless placed by the system - the snap was refreshed within maxPostponement; (R5) pruning removes only non-system holds and only of snaps without a pending update / just refreshed, a refused hold removes only the refused holder's own records, and the \"snaps-hold\" key is written only by the gating code.",
 		NotDecided:  "cumulative behaviour over repeated holds (time arithmetic); holds with explicit durations beyond the per-request checks; the auto-refresh code that consumes HeldSnaps.",
-		Run:         func(c *Ctx) { runC15(c); runC15x(c); runC15y(c) },
+		Run:         func(c *Ctx) { runC15(c); runC15x(c); runC15y(c); runC15z(c) },
 	})
 }
 
